@@ -1,6 +1,6 @@
 (* Corr/C01.v — correspondence runner: scripted underlying reader, identity "hash" *)
 From Coq Require Import List ZArith NArith Bool.
-From Verif Require Import Base.StrX Model.C01_BlobRead.
+From Verif Require Import Base.StrX Model.C01_BlobRead Model.C01_Resume.
 Import ListNotations.
 
 Definition bytes := list N.
@@ -37,9 +37,51 @@ Definition check (c : case) : bool :=
   let '(outs, _) := run N bytes S Hid beqb sread sseek (new_reader N bytes S (c_size c) (c_dig c) (c_hdr c) s0) (c_ops c) in
   list_eqb (fun a b => beqb (fst a) (fst b) && Nat.eqb (snd a) (snd b)) (map out_code outs) (c_obs c).
 
-Fixpoint mismatches_from (i : nat) (cs : list case) : list nat :=
+(* ---- registry reads: BReader (NewReader with the first response's headers) over the resume layer over a scripted registry ---- *)
+Record att := mkAtt { a_drop : Z; a_good : bool; a_honor : bool; a_skew : Z; a_nocr : bool; a_cld : Z }.
+Definition att_default := mkAtt (-1) false true 0 false 0.
+Record rcase := mkRC { rc_content : bytes; rc_served : bytes; rc_atts : list att; rc_size : Z; rc_dig : ddesc bytes;
+                       rc_hdr : option (Z * option bytes); rc_limit : nat; rc_ops : list nat;
+                       rc_obs : list (bytes * nat); rc_ranges : list (option Z) }.
+
+(* the scripted registry of the harness (props/c01: handler of kind "reg") *)
+Definition rsrv (c : rcase) (k : nat) (rg : option (Z * Z)) : reply N :=
+  let a := nth k (rc_atts c) att_default in
+  let stream := if a_good a then rc_content c else rc_served c in
+  let '(start, cr) :=
+    match rg with
+    | Some (s, _) => if a_honor a then (Z.to_nat (Z.max 0 (Z.min (s + a_skew a) (Z.of_nat (length stream)))), negb (a_nocr a)) else (O, false)
+    | None => (O, false)
+    end in
+  let body := skipn start stream in
+  let dropped := (0 <=? a_drop a) && (a_drop a <? Z.of_nat (length body)) in
+  RpOk (Some (Z.of_nat (length body) + a_cld a)) cr
+       (if dropped then firstn (Z.to_nat (a_drop a)) body else body) (if dropped then EndUnexpected else EndEOF).
+
+Definition RS := (rst N * list (option (Z * Z)))%type.
+Definition rread (c : rcase) (s : RS) (n : nat) : bytes * uev * RS :=
+  let '(bs, e, s', l) := read (rsrv c) (rc_limit c) (fun _ => false) (fst s) n in (bs, e, (s', snd s ++ l)).
+Definition zopt_eqb (a b : option Z) : bool :=
+  match a, b with Some x, Some y => Z.eqb x y | None, None => true | _, _ => false end.
+Definition obs_eqb := list_eqb (fun a b : bytes * nat => beqb (fst a) (fst b) && Nat.eqb (snd a) (snd b)).
+
+Definition rcheck (c : rcase) : bool :=
+  match open (rsrv c) (rc_limit c) (rc_size c) 0 with
+  | (NOk, s0, l0) =>
+      let '(outs, x) := run N bytes RS Hid beqb (rread c) (fun _ => None)
+                            (new_reader N bytes RS (rc_size c) (rc_dig c) (rc_hdr c) (s0, l0)) (map ORead (rc_ops c)) in
+      obs_eqb (map out_code outs) (rc_obs c) &&
+      list_eqb zopt_eqb (map (option_map fst) (snd (us _ _ _ x))) (rc_ranges c)
+  | (_, _, l0) =>   (* BlobGet itself failed: nothing was read *)
+      match rc_obs c with [] => list_eqb zopt_eqb (map (option_map fst) l0) (rc_ranges c) | _ => false end
+  end.
+
+Inductive xcase := XS (c : case) | XR (r : rcase).
+Definition xcheck (x : xcase) : bool := match x with XS c => check c | XR r => rcheck r end.
+
+Fixpoint mismatches_from (i : nat) (cs : list xcase) : list nat :=
   match cs with
   | [] => []
-  | c :: cs' => if check c then mismatches_from (Datatypes.S i) cs' else i :: mismatches_from (Datatypes.S i) cs'
+  | c :: cs' => if xcheck c then mismatches_from (Datatypes.S i) cs' else i :: mismatches_from (Datatypes.S i) cs'
   end.
 Definition mismatches := mismatches_from 0.
